@@ -209,6 +209,25 @@ class Machine:
         t = s.choice(cls.ODD_STEMS + (["d.{}/f", "d{}/f.x"] if dirs else []))
         return t.format(stem)
 
+    @staticmethod
+    def num(value, key):
+        """An integer argument in one of the notations `int(x, 0)` accepts, chosen by `key` (operation index and option):
+        decimal, lower / upper-case / zero-padded hex, sometimes octal or binary."""
+        import hashlib as _h
+
+        r = _h.sha256(repr(key).encode()).digest()[0] % 10
+        if r < 4:
+            return str(value)
+        if r < 6:
+            return hex(value)
+        if r == 6:
+            return "0x" + format(value, "X")
+        if r == 7:
+            return "0X" + format(value, "08x")
+        if r == 8:
+            return "0o" + format(value, "o")
+        return "0b" + format(value, "b") if value < (1 << 16) else "0x" + format(value, "010x")
+
     @classmethod
     def odd_for(cls, name):
         """The same, chosen by the name itself (for machines whose slot names carry meaning)."""
